@@ -1628,6 +1628,8 @@ where
             // CharacterEscape :: IdentityEscape :: [+UnicodeMode] /
             '^' | '$' | '\\' | '.' | '*' | '+' | '?' | '(' | ')' | '[' | ']' | '{' | '}' | '|'
             | '/' => Ok(c),
+            // SourceCharacterIdentityEscape[+NamedCaptureGroups] :: SourceCharacter but not one of c or k
+            'k' if !self.named_group_indices.is_empty() => error("Invalid character escape"),
             // CharacterEscape :: IdentityEscape :: SourceCharacterIdentityEscape
             _ if !self.flags.unicode => Ok(c),
             _ => error("Invalid character escape"),
